@@ -220,9 +220,14 @@ def run_operator_case(case, ctx):
         ufunc = getattr(numpy, kind)
         target = dict(REDUCTIONS)[kind]
         axis = case["axis"]
-        pairs = [("ufunc.reduce", lambda: ufunc.reduce(a, axis=axis)),
-                 ("numpoly", lambda: getattr(numpoly, target)(a, axis=axis)),
-                 ("numpy", lambda: getattr(numpy, target)(a, axis=axis))]
+        extra = {}
+        if case.get("where") is not None:
+            extra["where"] = numpy.array(case["where"], dtype=bool).reshape(case["where_shape"])
+        pairs = [("ufunc.reduce", lambda: ufunc.reduce(a, axis=axis, **extra)),
+                 ("numpoly", lambda: getattr(numpoly, target)(a, axis=axis, **extra)),
+                 ("numpy", lambda: getattr(numpy, target)(a, axis=axis, **extra))]
+        if kind == "add":
+            pairs.append(("method", lambda: a.sum(axis=axis, **extra)))
     elif case["form"] == "accumulate":
         axis = case["axis"]
         pairs = [("ufunc.accumulate", lambda: numpy.add.accumulate(a, axis=axis)),
@@ -297,6 +302,10 @@ def run_operators(spec, ctx):
             case["axis"] = rng.choice(list(range(len(shape))) + [None, -1])
             if case["op"] in ("maximum", "minimum"):
                 case["axis"] = None
+            if case["op"] == "add" and rng.random() < 0.5:
+                mshape = rng.choice([tuple(shape), tuple(shape[-1:])])
+                case["where"] = g.array_data(mshape, "bool", zero_prob=0.0)
+                case["where_shape"] = list(mshape)
         else:
             case["op"] = "add"
             shape = C.nd_shape(g, mindim=1)
